@@ -378,7 +378,15 @@ def frame_grid(rep, policies=None, methods=("Egyptian", "Mwl", "Isna", "UmmAlQur
                         bad = ("frame-other-four", "Fajr/Isha-only policy %s changed %s" % (pol, p))
                     elif pol.endswith("Invalid") and p in ("Fajr", "Isha") and ct is not None and not same:
                         if method in ("UmmAlQurra", "FixedIsha") and p == "Isha" and rt is not None and rt["secs"] == ct["secs"] and rt["extreme"]:
-                            bad = ("interval-flag", "only-if-invalid policy %s flags the conventionally valid interval-defined Isha (value unchanged) as extreme" % pol)
+                            # the recorded finding has a precise precondition: the discarded angle-based Isha (angle 0) does not exist on
+                            # that day although Maghrib does. Anything else with this symptom is a different violation.
+                            probe = replay.run([api_case(la, lo, g, d, "None", "None", "None",
+                                                         {"angles": {"Fajr": 18.0, "Isha": 0.0}})])[0]
+                            if "times" in probe and probe["times"]["Isha"] is None and probe["times"]["Maghrib"] is not None:
+                                bad = ("interval-flag", "only-if-invalid policy %s flags the conventionally valid interval-defined Isha (value unchanged) as extreme" % pol)
+                            else:
+                                bad = ("frame-valid-flagged", "only-if-invalid policy %s flags the conventionally valid interval-defined Isha as extreme "
+                                                              "although the angle-based Isha exists as well (nothing is invalid that day)" % pol)
                         else:
                             bad = ("frame-valid-changed", "only-if-invalid policy %s changed or flagged the conventionally valid %s" % (pol, p))
                     elif rt is not None and not rt["extreme"] and (ct is None or ct["secs"] != rt["secs"]) and not pol.startswith("HalfOfNight"):
@@ -470,7 +478,9 @@ def nearest_lat_grid(rep):
     on the library's own ephemeris evaluated at the substitute latitude, same longitude and date, within 3 s."""
     found = {}
     combos = [(60.0, -60.0, "2023-10-25", "Shafi"), (10.0, 50.0, "2023-07-03", "Mwl"), (30.0, 48.5, "2023-06-01", "Egypt"),
-              (58.3, 48.5, "2022-07-06", "Isna"), (-40.0, 45.0, "2023-01-15", "Isna"), (62.0, 30.0, "2023-05-20", "Egyptian")]
+              (58.3, 48.5, "2022-07-06", "Isna"), (-40.0, 45.0, "2023-01-15", "Isna"), (62.0, 30.0, "2023-05-20", "Egyptian"),
+              # methods that define Isha by an interval (90 min after Maghrib): the definition is re-applied on the REPORTED Maghrib
+              (-52.0, -45.0, "1999-01-05", "UmmAlQurra"), (55.0, 40.0, "2023-06-10", "FixedIsha"), (20.0, 45.0, "2023-11-11", "UmmAlQurra")]
     eph, meta = [], []
     for lat, nlat, date, method in combos:
         for la in (lat, nlat):
@@ -499,6 +509,13 @@ def nearest_lat_grid(rep):
             if i == 2:
                 continue
             sub, obs, out = h_sub[i], h_obs[i], r["out"][i]
+            if i == 5 and method in ("UmmAlQurra", "FixedIsha"):
+                base_m = r["out"][4]          # the Maghrib the result reports (substitute one under all-prayers, the observer's own otherwise)
+                exp_m = h_sub[4] if pol == "NearestLatitudeAllPrayersAlways" else h_obs[4]
+                if base_m is not None and exp_m is not None and (out is None or abs(out[0] - (exp_m + 1.5)) > TOL):
+                    found.setdefault("nearest-lat-interval", []).append(("%s with %s: Isha = %s, expected the reported Maghrib %.6f + 90 min [observer %s -> %s, %s]" %
+                                                                           (pol, method, out, exp_m, lat, nlat, date), c, r))
+                continue
             if pol.endswith("Invalid") and obs is not None:
                 continue
             if sub is None:
